@@ -341,6 +341,8 @@ func checkVirtualSize(c *Ctx, fn *ssa.Function) {
 						inputVar = true
 					case l == witKinds.String():
 						witVar = true
+					case countsChange(p, p.throughFrames(call.Call.Args[0]), fn), countsChangeViaHelper(p, p.throughFrames(call.Call.Args[0]), fn, 5):
+						outVar = true
 					}
 				}
 				if depth < 2 {
@@ -1279,6 +1281,7 @@ func checkChangeOutputSizeFormula(c *Ctx, fn *ssa.Function, base ssa.Value, chan
 		in  *ssa.Function
 		idx int
 		e   ssa.Value
+		l   Lin
 	}
 	var cands []cand
 	nonZeroOf := func(v ssa.Value) (ssa.Value, bool) {
@@ -1306,63 +1309,92 @@ func checkChangeOutputSizeFormula(c *Ctx, fn *ssa.Function, base ssa.Value, chan
 			return nil, -1
 		}
 		for i, a := range call.Call.Args {
-			if prm, ok := stripConv(a).(*ssa.Parameter); ok && paramIndex(fn, prm) == changeParam {
+			if prm, ok := p.throughFrames(a).(*ssa.Parameter); ok && paramIndex(fn, prm) == changeParam {
 				return h, i
 			}
 		}
 		return nil, -1
 	}
-	for _, leaf := range additiveLeaves(base, 0) {
-		switch x := leaf.(type) {
+	privateHelper := func(call *ssa.Call) *ssa.Function {
+		h := call.Call.StaticCallee()
+		if h == nil || len(h.Blocks) == 0 || fnPkgPath(h) != fnPkgPath(fn) || h.Object() == nil || h.Object().Exported() {
+			return nil
+		}
+		return h
+	}
+	// the non-zero form is read where it is found, in the estimator's terms (a helper's parameters standing for the
+	// arguments it was called with)
+	add := func(in *ssa.Function, e ssa.Value) {
+		cands = append(cands, cand{in, changeParam, e, p.linearize(e, 0)})
+	}
+	fromHelper := func(call *ssa.Call, h *ssa.Function, res int) {
+		p.withFrame(h, call.Call.Args, func() {
+			for _, b := range h.Blocks {
+				r, ok := b.Instrs[len(b.Instrs)-1].(*ssa.Return)
+				if !ok {
+					continue
+				}
+				if k, isK := constInt(r.Results[res]); isK && k == 0 {
+					continue
+				}
+				if e, ok := nonZeroOf(r.Results[res]); ok {
+					add(h, e)
+				} else {
+					add(h, r.Results[res])
+				}
+			}
+		})
+	}
+	var walk func(v ssa.Value, depth int)
+	walk = func(v ssa.Value, depth int) {
+		if depth > 16 {
+			return
+		}
+		v = stripConv(v)
+		switch x := v.(type) {
+		case *ssa.BinOp:
+			if x.Op == token.ADD {
+				walk(x.X, depth+1)
+				walk(x.Y, depth+1)
+			}
+		case *ssa.Parameter:
+			// a summand handed to the part that adds the sizes up
+			p.inCallerOf(x, func(arg ssa.Value) { walk(arg, depth+1) })
 		case *ssa.Phi:
 			if e, ok := nonZeroOf(x); ok {
-				cands = append(cands, cand{fn, changeParam, e})
+				add(x.Parent(), e)
 			}
 		case *ssa.Call:
-			if h, i := helperOf(x); h != nil && h.Signature.Results().Len() == 1 {
+			if h, _ := helperOf(x); h != nil && h.Signature.Results().Len() == 1 {
+				fromHelper(x, h, 0)
+			} else if h := privateHelper(x); h != nil && h.Signature.Results().Len() == 1 {
+				// the sum itself moved into a private part: its (single) returned expression, read in the caller's terms
+				var rets []*ssa.Return
 				for _, b := range h.Blocks {
-					r, ok := b.Instrs[len(b.Instrs)-1].(*ssa.Return)
-					if !ok {
-						continue
+					if r, ok := b.Instrs[len(b.Instrs)-1].(*ssa.Return); ok {
+						rets = append(rets, r)
 					}
-					if k, isK := constInt(r.Results[0]); isK && k == 0 {
-						continue
-					}
-					if e, ok := nonZeroOf(r.Results[0]); ok {
-						cands = append(cands, cand{h, i, e})
-					} else {
-						cands = append(cands, cand{h, i, r.Results[0]})
-					}
+				}
+				if len(rets) == 1 {
+					p.withFrame(h, x.Call.Args, func() { walk(rets[0].Results[0], depth+1) })
 				}
 			}
 		case *ssa.Extract:
 			if call, ok := x.Tuple.(*ssa.Call); ok {
-				if h, i := helperOf(call); h != nil {
-					for _, b := range h.Blocks {
-						r, ok := b.Instrs[len(b.Instrs)-1].(*ssa.Return)
-						if !ok {
-							continue
-						}
-						if k, isK := constInt(r.Results[x.Index]); isK && k == 0 {
-							continue
-						}
-						if e, ok := nonZeroOf(r.Results[x.Index]); ok {
-							cands = append(cands, cand{h, i, e})
-						} else {
-							cands = append(cands, cand{h, i, r.Results[x.Index]})
-						}
-					}
+				if h, _ := helperOf(call); h != nil {
+					fromHelper(call, h, x.Index)
 				}
 			}
 		}
 	}
+	walk(base, 0)
 	if len(cands) != 1 {
 		c.Check("C07-R2", "change-output-size-is-value-prefix-script", fn.Pos(), false,
 			fmt.Sprintf("the change output's summand of the base size could not be identified (%d candidates; undecided)", len(cands)))
 		return
 	}
 	cd := cands[0]
-	l := p.linearize(cd.e, 0)
+	l := cd.l
 	prm := fmt.Sprintf("param#%d", cd.idx)
 	okF := l.Konst == 8 && len(l.Coef) == 2 && l.Coef[prm] == 1 && l.Coef["call:VarIntSerializeSize(+1*"+prm+" +0)"] == 1
 	c.Check("C07-R2", "change-output-size-is-value-prefix-script", cd.e.Pos(), okF,
